@@ -237,6 +237,9 @@ pub fn c09(tier: Tier) -> i32 {
             }
         }
     }
+    // a tower whose slots per subscription are so many that the second renewal hits the cap (u32): the
+    // refused renewal must leave the promised heights alone
+    cfgs.push(cfg(1 << 31, 2, 1));
     let mut models = Vec::new();
     for c in cfgs {
         let mut a = Alphabet::basic();
